@@ -196,12 +196,48 @@ def handleTrace : List String → Ans
   | _ => bad
 
 /-! C18 -/
+/-- `bb iterops <hex> <op>...`: a sequence of operations on ONE `BitBoardIter` (n = `next`, t<k> = `nth(k)`,
+s = `size_hint`); the sequence ends at the first `nth` that returns nothing (what is left then is unspecified).
+Model: the bit tricks (`pop`, PDEP `nth`); specification: the ascending list of members. -/
+def iterOpsModel : List String → BB → List String → List String
+  | [], _, acc => acc.reverse
+  | op :: ops, b, acc =>
+    if op = "n" then
+      match BB.pop b with
+      | some (s, b') => iterOpsModel ops b' (s!"n={s.val}" :: acc)
+      | none => iterOpsModel ops b ("n=none" :: acc)
+    else if op = "s" then iterOpsModel ops b (s!"s={BB.sizeHint b}" :: acc)
+    else match (op.drop 1).toNat? with
+      | some k =>
+        (match BB.nthBmi2 k b with
+         | (some s, rest) => iterOpsModel ops rest (s!"t{k}={s.val}" :: acc)
+         | (none, _) => (s!"t{k}=none" :: acc).reverse)
+      | none => ("bad-op" :: acc).reverse
+
+def iterOpsSpec : List String → List Sq → List String → List String
+  | [], _, acc => acc.reverse
+  | op :: ops, l, acc =>
+    if op = "n" then
+      match l with
+      | s :: l' => iterOpsSpec ops l' (s!"n={s.val}" :: acc)
+      | [] => iterOpsSpec ops [] ("n=none" :: acc)
+    else if op = "s" then iterOpsSpec ops l (s!"s={l.length}" :: acc)
+    else match (op.drop 1).toNat? with
+      | some k =>
+        (match (l.drop k) with
+         | s :: l' => iterOpsSpec ops l' (s!"t{k}={s.val}" :: acc)
+         | [] => (s!"t{k}=none" :: acc).reverse)
+      | none => ("bad-op" :: acc).reverse
+
 open Spec in
 def handleBB (args : List String) : Ans :=
   let sb (p : SqSet) : String := showBB (SqSet.toBB p)
   match args with
   | "fromsqs" :: rest => match rest.mapM sqIdx? with
     | some l => (showBB (BB.ofList l), sb (SqSet.ofList l))
+    | none => bad
+  | "iterops" :: a :: ops => match parseBB a with
+    | some a => (" ".intercalate (iterOpsModel ops a []), " ".intercalate (iterOpsSpec ops (SqSet.members (setOf a)) []))
     | none => bad
   | "frombbs" :: rest => match rest.mapM parseBB with
     | some l => (showBB (BB.unionList l), sb (fun t => l.any (fun b => setOf b t)))
